@@ -161,6 +161,8 @@ inductive Ev
   | setLocal (t : Nat) (k : Nat) (v : Nat)
   | replaceLocal (t : Nat) (k : Nat) (v : Nat)
   | getLocal (t : Nat) (k : Nat)
+  | createFail (a : Nat)                            -- `p_uthread_create*` whose native part fails: NULL
+  | joinFail (a : Nat) (h : Nat)                    -- `p_uthread_join` whose `pthread_join` fails
   deriving DecidableEq, Repr
 
 def upd {α : Type} (f : Nat → α) (i : Nat) (x : α) : Nat → α := fun j => if j = i then x else f j
@@ -215,6 +217,22 @@ def createEnd (s : State) (a : Nat) : Except Err State :=
         refCount := createInitRefCount, ours := true, joinable := c.joinable, named := c.named,
         written := true, userRefs := 1, threadRef := true }
       spin := none }
+
+/-- `p_uthread_create_full` when `p_uthread_create_internal` fails after its allocation: `p_spinlock_lock`;
+    `ret = p_malloc0 (sizeof (PUThread))`; `ret->base.joinable = joinable`; one of `pthread_attr_init`,
+    `pthread_attr_setdetachstate`, `pthread_create` (after the EPERM retry) returns non-zero; `pthread_attr_destroy` (on the
+    last two paths); `p_free (ret)`; NULL comes back, so `p_uthread_create_full` writes no field; `p_spinlock_unlock`; NULL is
+    returned.  No native thread exists.  The block takes the next handle id: it is allocated and released inside the call
+    and its pointer is given to nobody (`written` = the creating call is over; what a freed block contains is immaterial). -/
+def createFail (s : State) (a : Nat) : Except Err State :=
+  if ¬ canAct s a then .error .notEnabled else
+  match s.spin with
+  | some _ => .error .notEnabled
+  | none =>
+    .ok { s with
+      nH := s.nH + 1
+      hdl := upd s.hdl s.nH { freed := true, written := true }
+      freeLog := s.freeLog ++ [s.nH] }
 
 /-- a thread the library did not create (the harness's raw `pthread_create`) -/
 def spawn (s : State) : Except Err State :=
@@ -317,6 +335,15 @@ def join (s : State) (a : Nat) (h : Nat) : Except Err State :=
   .ok { s with
     hdl := upd s.hdl h { s.hdl h with joined := true }
     joinLog := s.joinLog ++ [(a, h, (s.hdl h).retCode)] }
+
+/-- `p_uthread_join` on a joinable handle when `pthread_join` returns an error (`p_uthread_wait_internal` only logs it):
+    the call does not wait — whatever `ret_code` holds at that moment is returned; the native thread stays unjoined.
+    (On a handle that is not joinable the native call is not made: that is the `join` event.) -/
+def joinFail (s : State) (a : Nat) (h : Nat) : Except Err State :=
+  if ¬ canAct s a ∨ ¬ h < s.nH ∨ (s.hdl h).written = false then .error .notEnabled else
+  if (s.hdl h).freed then .error (.useAfterFree h) else
+  if (s.hdl h).joinable = false then .error .notEnabled else
+  .ok { s with joinLog := s.joinLog ++ [(a, h, (s.hdl h).retCode)] }
 
 /-! ## thread end -/
 
@@ -497,6 +524,8 @@ def step (s : State) : Ev → Except Err State
   | .setLocal t k v => setLocal s t k v
   | .replaceLocal t k v => replaceLocal s t k v
   | .getLocal t k => getLocal s t k
+  | .createFail a => createFail s a
+  | .joinFail a h => joinFail s a h
 
 def run : State → List Ev → Except Err State
   | s, [] => .ok s
@@ -525,6 +554,7 @@ def Permitted (s : State) : Ev → Prop
   | .ref a h => 0 < (s.hdl h).userRefs ∨ ((s.hdl h).thread = a ∧ (s.hdl h).threadRef = true)
   | .join a h => (0 < (s.hdl h).userRefs ∨ ((s.hdl h).thread = a ∧ (s.hdl h).threadRef = true)) ∧ (s.hdl h).joined = false
   | .unref _ h => 0 < (s.hdl h).userRefs
+  | .joinFail a h => (0 < (s.hdl h).userRefs ∨ ((s.hdl h).thread = a ∧ (s.hdl h).threadRef = true)) ∧ (s.hdl h).joined = false
   | _ => True
 
 instance (s : State) (e : Ev) : Decidable (Permitted s e) := by
